@@ -10,7 +10,7 @@ RULE = ("random statement sequences (1-8 statements) over 6 variable names (two 
         "statement at every position, the empty program; initial contexts empty / pre-bound with every value type. The value and the final context "
         "are compared with the model; `x op= e` is also compared with `x = x op e` on equal contexts. distinct class = (assignment operator, old "
         "value class, new value class, outcome)")
-VARS = ["a", "b", "c", "d", "max", "sum", "m", "m.k", "a.b", "taxZone"]  # `m.k` is one plain name, whatever `m` holds
+VARS = ["a", "b", "c", "d", "max", "sum", "m", "m.k", "a.b", "taxZone", "TRUE", "fALSE"]  # `m.k` is one plain name, whatever `m` holds
 FN_TARGETS = ["rate", "quota"]  # bound to context functions: reading the target calls the function
 SETTERS = gen.SETTER_OPS
 FAILING = [["bin", "/", ["num", "1", 0], ["num", "0", 0]], ["bin", "+", ["ref", "nil"], ["num", "1", 0]], ["fn", "nosuch", []], ["un", "!", ["num", "1", 0]], ["fn", "min", []]]
